@@ -23,6 +23,10 @@ def implEvents : Option Outcome → List Event
   | some (.ok _ evs _) => evs
   | _ => []
 
+def implPend : Option Outcome → List PendDesc
+  | some (.ok _ _ pd) => pd
+  | _ => []
+
 /-- is `dst` the deployed gateway? -/
 def isGateway (st : DState) (dst : Bytes) : Bool := st.world.kind dst == some .gateway
 
@@ -248,6 +252,8 @@ def judgeGov (prop : String) (st : DState) (fields : List String) (impl : Option
         else if st.cancelledTL.contains h then
           (if st.restoredTL.contains h then "VIOLATION:dispatch-of-proposal-cancelled-between-dispatch-and-failure-callback"
            else "VIOLATION:dispatch-of-cancelled-proposal")
+        else if (implPend impl).any (fun d => d.to != t || d.egld != Codec.topBig v) then
+          "VIOLATION:dispatched-call-differs-from-the-scheduled-proposal"
         else "ok"
       | "C11", "execute", _ =>
         if !modelOk then "VIOLATION:time-lock-command-accepted-against-rules" else "ok"
@@ -259,6 +265,9 @@ def judgeGov (prop : String) (st : DState) (fields : List String) (impl : Option
         else if st.cancelledOp.contains h then
           (if st.restoredOp.contains h then "VIOLATION:operator-dispatch-of-approval-cancelled-between-dispatch-and-failure-callback"
            else "VIOLATION:operator-dispatch-of-cancelled-approval")
+        -- the dispatched call is the approved one: exactly that target and that native value
+        else if (implPend impl).any (fun d => d.to != t || d.egld != Codec.topBig v) then
+          "VIOLATION:dispatched-call-differs-from-the-approved-proposal"
         else "ok"
       | "C12", "transferOperatorship", _ =>
         if !modelOk then "VIOLATION:operator-changed-by-stranger" else "ok"
